@@ -213,13 +213,16 @@ def malformed_space(tier):
 
 
 FIXED = ['Etc/GMT+5', 'Etc/GMT-10', 'Etc/GMT-3', 'Etc/GMT+12', 'Etc/UTC',
-         'Asia/Kolkata', 'Asia/Kathmandu', 'America/Bogota']
+         'Asia/Kolkata', 'Asia/Kathmandu', 'America/Bogota', 'Africa/Lagos']
+NAME_CASES = ['as listed', 'lower', 'upper']
 
 
 def fixed_space():
     def decode(i):
-        return {'kind': 'e2e-fixed', 'zone': FIXED[i]}
-    return Space('main(load) in fixed-offset zones', len(FIXED), decode)
+        return {'kind': 'e2e-fixed', 'zone': FIXED[i // len(NAME_CASES)],
+                'name_case': NAME_CASES[i % len(NAME_CASES)]}
+    return Space('main(load) in fixed-offset zones x spelling of the zone '
+                 'name', len(FIXED) * len(NAME_CASES), decode)
 
 
 def series_space(tier):
@@ -579,7 +582,15 @@ def run_e2e_fixed(case):
     z = records.csv_text('datetime,z', [(texts[k], 10.0 - k)
                                        for k in range(n)])
     db = os.path.join(cs.tmpdir(), 'c11f.sqlite3')
-    status, _, _, exc = cs.cli_load(db, p, e, z, case['zone'])
+    name = {'lower': case['zone'].lower(), 'upper': case['zone'].upper()
+            }.get(case.get('name_case'), case['zone'])
+    status, _, _, exc = cs.cli_load(db, p, e, z, name)
+    if status != 0 and name != case['zone']:
+        # a spelling of the name that is not accepted: nothing to judge
+        if os.path.exists(db):
+            os.unlink(db)
+        return Result(nontrivial=False, outcome='name-not-accepted',
+                      counters={'zone_name_spellings_refused': 1})
     if status != 0:
         if os.path.exists(db):
             os.unlink(db)
@@ -600,7 +611,7 @@ def run_e2e_fixed(case):
         viol.append(('e2e-fixed-zone',
                      'declared zone %s: first grid epoch %r, the text %r is '
                      'the instant %r there (off by %r s)'
-                     % (case['zone'], grid[:1], texts[0], want[0],
+                     % (name, grid[:1], texts[0], want[0],
                         (grid[0] - want[0]) if grid else None)))
     return Result(viol=viol, nontrivial=True, outcome=repr(
         (grid[0] - want[0]) if grid else None))
